@@ -87,10 +87,15 @@ def guarded_site(rep, rid, ctx, inst, named_pats, env=None, function=None):
             # the predicate path states, which keep the flag's value and the fact together
             try:
                 from .paths import PathStates, holds
+                from . import build as _b
+                _before = set(_b.REQUESTED_MISSING)      # (trying the pattern on every branch of the function must not by itself count as "the rule needed a vanished field")
                 ps = PathStates(fn, F, {"g": pat}, correlate=True, cap=4096)
                 sts = ps.at_block(inst.block.id)
                 if sts and not ps.overflow and all(holds(s_, "g") for s_ in sts):
                     f = ("path-states", name, len(sts))
+                else:
+                    _b.REQUESTED_MISSING.clear()
+                    _b.REQUESTED_MISSING.update(_before)
             except Exception:
                 f = None
         if f is not None and f[0] == "path-states":
